@@ -168,6 +168,22 @@ def sensitivity(args):
     name = "RESULTS.json" if not args.only else "RESULTS-partial.json"
     with open(os.path.join(VERIF, "selftest", name), "w") as f:
         json.dump(out, f, indent=1)
+    if args.only and args.merge:
+        # replace / add the re-tested entries in the full results file
+        full_path = os.path.join(VERIF, "selftest", "RESULTS.json")
+        with open(full_path) as f:
+            full = json.load(f)
+        by = {r["mutant"]: r for r in full["results"]}
+        for r in results:
+            r = dict(r, retested_after_full_run=True)
+            by[r["mutant"]] = r
+        full["results"] = [by[k] for k in sorted(by, key=lambda n: (not n.startswith("revert"), n))]
+        full["summary"] = {"mutants": len(full["results"]),
+                           "detected": sum(1 for r in full["results"] if r.get("status") == "detected"),
+                           "by_quick": sum(1 for r in full["results"] if r.get("detected_by") == "quick"),
+                           "missed": [r["mutant"] for r in full["results"] if r.get("status") == "MISSED"]}
+        with open(full_path, "w") as f:
+            json.dump(full, f, indent=1)
     print(json.dumps(out["summary"]))
     return 0 if not out["summary"]["missed"] else 1
 
@@ -180,6 +196,7 @@ def main():
     ap.add_argument("-n", type=int, default=1500)
     ap.add_argument("--only", nargs="*")
     ap.add_argument("--skip-tests", action="store_true")
+    ap.add_argument("--merge", action="store_true", help="with --only: update those entries in RESULTS.json")
     ap.add_argument("--quick-only", action="store_true")
     ap.add_argument("--thorough-runs", type=int, default=20000)
     args = ap.parse_args()
